@@ -1,6 +1,7 @@
 import Dcg.Proofs.Names
 import Dcg.Proofs.CaseMap
 import Dcg.Proofs.TypedDictLink
+import Dcg.Proofs.DiscrVisit
 /-
 C07 — member names are legal identifiers; wire names are preserved.
 Only property theorems live here; helper lemmas are in Dcg/Proofs/Names.lean.
@@ -501,5 +502,136 @@ theorem split_declarations_lose_key :
                      tdOwn [("sku_".toList, false)] [(("sku_".toList, none), false)])).rendered.map (·.1)
       = ["sku-".toList] := by
   refine ⟨by decide +kernel, by decide +kernel, by decide +kernel⟩
+
+/-! ### discriminator members: the lookup-and-rewrite of `Parser.__apply_discriminator_type`, visited n times
+
+`Dcg/Model/DiscrVisit`: `visit san pn ms` is one visit of a discriminator dict whose `propertyName` currently reads `pn`
+on a variant with members `ms` (`san` = `get_valid_field_name_and_alias`); it returns the REWRITTEN `propertyName` and
+the members. `visits san n` is n visits of the same dict (collapsed root models share it). -/
+open Dcg.Model.DiscrVisit Dcg.Proofs.DiscrVisit in
+/-- IDEMPOTENCE of a visit, for ALL member lists (no hypothesis on the class): when the identifier the sanitiser
+returns is a fixed point of the sanitiser (`hfix`: sanitising `field_type` again gives `field_type` and no alias),
+visiting the dict again — now reading the rewritten name — changes nothing: no member is added, retyped or renamed. -/
+theorem discriminator_visit_fixpoint (san : San) (pn : List Char) (ms : List Member)
+    (hfix : san (san pn).1 = ((san pn).1, none)) :
+    visit san (visit san pn ms).1 (visit san pn ms).2 = visit san pn ms := by
+  have h1 : (visit san pn ms).1 = (san pn).1 := rfl
+  rw [h1]
+  unfold visit
+  rw [hfix]
+  simp only
+  by_cases hb : (mark (san pn).1 ms).2 = true
+  · simp only [hb, if_true, mark_mark]
+  · simp only [Bool.not_eq_true] at hb
+    obtain ⟨he, hno⟩ := mark_false _ _ hb
+    have hc : hits (san pn).1 (created san pn) = true := by simp [hits, created]
+    simp only [hb, Bool.false_eq_true, if_false, he]
+    rw [mark_append_new _ _ _ hno hc rfl]
+    simp
+
+open Dcg.Model.DiscrVisit Dcg.Proofs.DiscrVisit in
+/-- UNBOUNDED: any number n ≥ 1 of visits of the same discriminator dict leaves every variant exactly as ONE visit
+does (same hypothesis: the sanitised identifier is a fixed point of the sanitiser). -/
+theorem discriminator_visits_idempotent (san : San) (n : Nat) (pn : List Char) (ms : List Member)
+    (hfix : san (san pn).1 = ((san pn).1, none)) :
+    visits san (n + 1) pn ms = visit san pn ms := by
+  induction n generalizing pn ms with
+  | zero => rfl
+  | succ n ih =>
+    have hfix' : san (san (visit san pn ms).1).1 = ((san (visit san pn ms).1).1, none) := by
+      show san (san (san pn).1).1 = ((san (san pn).1).1, none)
+      rw [hfix]; exact hfix
+    show visits san (n + 1) (visit san pn ms).1 (visit san pn ms).2 = _
+    rw [ih _ _ hfix']
+    exact discriminator_visit_fixpoint san pn ms hfix
+
+open Dcg.Model.DiscrVisit Dcg.Proofs.DiscrVisit in
+/-- The class after ONE visit (hence, by `discriminator_visits_idempotent`, after any number): when the members the
+lookup hits are exactly those stored under the tag's wire name (`hhit` — decidable; it fails for a sibling whose name
+is the sanitised identifier, `discriminator_sibling_mistaken_for_tag`), wire keys and identifiers are unique in the
+class as parse_object_fields leaves them, and the sanitiser keeps the wire name as alias whenever it changes the name
+(`alias_preserved`), then EXACTLY ONE member is stored under the wire name of the tag, no wire key and no identifier
+occurs twice, and the other members keep their keys and names. -/
+theorem discriminator_one_tag_member_partial (san : San) (pn : List Char) (ms : List Member)
+    (hhit : ∀ m ∈ ms, hits (san pn).1 m = true ↔ m.wire = pn)
+    (hw : (ms.map Member.wire).Nodup) (hn : (ms.map Member.name).Nodup)
+    (hal : (san pn).2 = if (san pn).1 = pn then none else some pn) :
+    ((visit san pn ms).2.map Member.wire).count pn = 1 ∧
+    ((visit san pn ms).2.map Member.wire).Nodup ∧ ((visit san pn ms).2.map Member.name).Nodup := by
+  have hcw : (created san pn).wire = pn := by
+    simp only [Member.wire, created, hal]
+    by_cases h : (san pn).1 = pn <;> simp [h]
+  unfold visit
+  by_cases hb : (mark (san pn).1 ms).2 = true
+  · simp only [hb, if_true, mark_wire, mark_name]
+    obtain ⟨m, hm, hh⟩ := mark_true_mem _ _ hb
+    have : pn ∈ ms.map Member.wire := List.mem_map.mpr ⟨m, hm, (hhit m hm).mp hh⟩
+    exact ⟨count_one_of_nodup_mem hw this, hw, hn⟩
+  · simp only [Bool.not_eq_true] at hb
+    obtain ⟨he, hno⟩ := mark_false _ _ hb
+    simp only [hb, Bool.false_eq_true, if_false, he, List.map_append, List.map_cons, List.map_nil, hcw]
+    have hnw : pn ∉ ms.map Member.wire := by
+      intro h
+      obtain ⟨m, hm, hmw⟩ := List.mem_map.mp h
+      have := (hhit m hm).mpr hmw
+      rw [hno m hm] at this; cases this
+    have hnn : (created san pn).name ∉ ms.map Member.name := by
+      intro h
+      obtain ⟨m, hm, hmn⟩ := List.mem_map.mp h
+      have : hits (san pn).1 m = true := by
+        simp only [hits, created] at hmn ⊢; simp [hmn]
+      rw [hno m hm] at this; cases this
+    refine ⟨?_, ?_, ?_⟩
+    · rw [List.count_append, List.count_eq_zero_of_not_mem hnw]; simp
+    · exact List.nodup_append.mpr ⟨hw, by simp, by
+        intro a ha b hb; simp at hb; subst hb; intro hab; subst hab; exact hnw ha⟩
+    · exact List.nodup_append.mpr ⟨hn, by simp, by
+        intro a ha b hb; simp at hb; subst hb; intro hab; subst hab; exact hnn ha⟩
+
+section DiscrExamples
+open Dcg.Model.DiscrVisit
+
+/-- `@type` ↦ (`field_type`, alias `@type`); identifiers map to themselves -/
+def sanAt : San := fun s => if s = "@type".toList then ("field_type".toList, some "@type".toList) else (s, none)
+def catDeclares : List Member :=
+  [{ name := "field_type".toList, orig := some "@type".toList, alias := some "@type".toList, lit := false },
+   { name := "lives".toList, orig := some "lives".toList, alias := none, lit := false }]
+def dogOmits : List Member := [{ name := "bark".toList, orig := some "bark".toList, alias := none, lit := false }]
+
+-- non-vacuity: the hypotheses hold for a sanitiser that really renames, on a variant that declares the tag and on one
+-- that does not; the conclusion is about three visits
+example : sanAt (sanAt "@type".toList).1 = ((sanAt "@type".toList).1, none) := by decide +kernel
+example : (∀ m ∈ catDeclares, hits (sanAt "@type".toList).1 m = true ↔ m.wire = "@type".toList) ∧
+    (∀ m ∈ dogOmits, hits (sanAt "@type".toList).1 m = true ↔ m.wire = "@type".toList) := by decide +kernel
+example : (visits sanAt 3 "@type".toList dogOmits).2.map Member.wire = ["bark".toList, "@type".toList] := by
+  decide +kernel
+example : (visits sanAt 3 "@type".toList catDeclares).2.map (fun m => (m.name, m.lit)) =
+    [("field_type".toList, true), ("lives".toList, false)] := by decide +kernel
+end DiscrExamples
+
+open Dcg.Model.DiscrVisit in
+/-- WHY the rewritten name must be matched against identifiers: a lookup that compares the CURRENT `propertyName`
+with wire names only (`visitWire`: `original_name != property_name → continue`, the created member recording the
+wire name) is right on the first visit and fails on the second, because by then `propertyName` reads `field_type`:
+both variants get a second `field_type` member, without alias. -/
+theorem wire_only_matching_fails_on_second_visit :
+    ((visitsWire sanAt 1 "@type".toList catDeclares).2.map Member.name).count "field_type".toList = 1 ∧
+    ((visitsWire sanAt 1 "@type".toList dogOmits).2.map Member.wire).count "@type".toList = 1 ∧
+    ((visitsWire sanAt 2 "@type".toList catDeclares).2.map Member.name).count "field_type".toList = 2 ∧
+    ((visitsWire sanAt 2 "@type".toList dogOmits).2.map Member.name).count "field_type".toList = 2 ∧
+    ((visits sanAt 2 "@type".toList catDeclares).2.map Member.name).count "field_type".toList = 1 ∧
+    ((visits sanAt 2 "@type".toList dogOmits).2.map Member.name).count "field_type".toList = 1 := by
+  decide +kernel
+
+open Dcg.Model.DiscrVisit in
+/-- The FULL statement (no `hhit`) is false of the code (known finding C07-DISCR-SIBLING): a variant that does not
+declare the tag `pet-type` but has a property `pet_type` gets NO member under the wire name `pet-type` — the sibling
+is taken for the tag (retyped, `lit`), nothing is created. -/
+theorem discriminator_sibling_mistaken_for_tag :
+    let san : San := fun s => if s = "pet-type".toList then ("pet_type".toList, some "pet-type".toList) else (s, none)
+    let ms : List Member := [{ name := "pet_type".toList, orig := some "pet_type".toList, alias := none, lit := false }]
+    ((visit san "pet-type".toList ms).2.map Member.wire).count "pet-type".toList = 0 ∧
+    (visit san "pet-type".toList ms).2.map Member.lit = [true] := by
+  decide +kernel
 
 end Dcg.Props.C07
